@@ -241,6 +241,9 @@ func c06Units(ctx *core.Ctx) []core.Unit {
 					if nsub%8 == 1 || ctx.Thorough() {
 						c.uncompressed(xb)
 						r.Nontrivial++
+						// the same rejected encoding once more (after other decodes): the decision is a function
+						// of the bytes, not of what was decoded before
+						c.compressed(xb, false)
 					}
 				}
 			}
@@ -291,6 +294,33 @@ func c06Units(ctx *core.Ctx) []core.Unit {
 			r.Evals += int64(st.Execs)
 			r.Nontrivial += int64(st.Complete)
 		}
+	}})
+	us = append(us, core.Unit{Name: "points whose ordinate is next to (p-1)/2 (the sign decision at its boundary)", Run: func(ctx *core.Ctx, r *core.Result) {
+		needRef()
+		c := &c06ctx{r: r}
+		half := new(big.Int).Rsh(new(big.Int).Sub(bigP, bi(1)), 1)
+		found := 0
+		for k := int64(-300); k <= 300; k++ {
+			y := new(big.Int).Add(half, bi(k))
+			// x^2 = (1 - y^2)/(a - d*y^2)
+			y2 := ref.MulP(y, y)
+			den := ref.SubP(ref.A, ref.MulP(ref.D, y2))
+			if den.Sign() == 0 {
+				continue
+			}
+			x2 := ref.MulP(ref.SubP(bi(1), y2), ref.InvP(den))
+			x := new(big.Int).ModSqrt(x2, bigP)
+			if x == nil {
+				continue
+			}
+			for _, xv := range []*big.Int{x, ref.SubP(new(big.Int), x)} {
+				found++
+				c.compressed(be32(xv), false)
+				c.uncompressed(be32(xv))
+				r.Nontrivial++
+			}
+		}
+		r.Note("abscissae_with_ordinate_next_to_half", found)
 	}})
 	us = append(us, core.Unit{Name: "boundaries around p and 2^256", Run: func(ctx *core.Ctx, r *core.Result) {
 		needRef()
